@@ -1,58 +1,78 @@
-"""C25 native replay (emu-mps, permutation clauses): with qubit-order optimisation on, the bad-atom
+"""C25 native replay.  (1) emu-mps, permutation clauses: with qubit-order optimisation on, the bad-atom
 filter must select the SITES of the well-prepared atoms (site k <-> atom perm[k]): bad atoms stay
-in |g>, the others keep their own drives and couplings and evolve as without reordering."""
+in |g>, the others keep their own drives and couplings and evolve as without reordering.
+(2) replay/c25_dark.py: the dark-site padding helpers (physical dimension 2 and 3), emu-mps with a
+leakage level and bad atoms against the run without the bad atoms, emu-sv without jump operators.
+The inputs of the open known findings F24 (emu-sv: jump operators act on bad atoms) and F25 (emu-mps:
+fewer than two well-prepared atoms) are run and printed as KNOWN-FINDING-Fxx-INPUT-FAILS; they are never
+part of the verdict."""
 import os, sys
 sys.path.insert(0, os.path.dirname(os.path.abspath(__file__)))
 import torch
 import perm_native as N
 import perm_units as U
+import c25_dark as K
 
 
 def main():
     N.setup()
     N.in_tmp_dir()
     bad = [True, False, False, False]
-    impl, sd, cfg = N.make_impl(True, bad_atoms=bad)
-    perm = impl.qubit_permutation.tolist()
-    if perm == [0, 1, 2, 3]:
-        print("NOT-REPRODUCED: the optimiser kept the register order (scenario needs a reordering)")
-        return 0
     msgs = []
-    m = U.dark_qubits_unit()
+    perm = None
+    try:          # an exception inside a run with bad atoms is a reproduction too (e.g. a padded list that is no valid MPS)
+        impl, sd, cfg = N.make_impl(True, bad_atoms=bad)
+        perm = impl.qubit_permutation.tolist()
+        if perm == [0, 1, 2, 3]:
+            print("  note: the optimiser kept the register order (the permutation scenarios need a reordering)")
+        m = U.dark_qubits_unit()
+        if m:
+            msgs.append(m)
+        _, r_on = N.run(True, bad)
+        _, r_off = N.run(False, bad)
+        a, b = torch.as_tensor(r_on.occupation[-1]), torch.as_tensor(r_off.occupation[-1])
+        if a[0].abs() > 1e-12 or not torch.allclose(a, b, atol=1e-6):
+            msgs.append(f"atom 0 badly prepared, perm {perm}: final occupations (atom order {tuple(r_on.atom_order)}) with "
+                        f"reordering {[round(float(x), 5) for x in a]} vs without {[round(float(x), 5) for x in b]}: bad atom 0 "
+                        "must stay at 0 and the others must agree")
+        # second scenario: a permutation that is not an involution (perm != inv_perm), one bad atom at a time
+        G = N.grid_matrix()
+        impl6, _, _ = N.make_impl(True, bad_atoms=[False] * 6, matrix=G)
+        perm6 = impl6.qubit_permutation.tolist()
+        inv6 = [perm6.index(k) for k in range(6)]
+        if perm6 != inv6:
+            for bad_atom in (1, 4):
+                bad6 = [k == bad_atom for k in range(6)]
+                _, r_on = N.run(True, bad6, matrix=G)
+                _, r_off = N.run(False, bad6, matrix=G)
+                a, b = torch.as_tensor(r_on.occupation[-1]), torch.as_tensor(r_off.occupation[-1])
+                if a[bad_atom].abs() > 1e-12 or not torch.allclose(a, b, atol=1e-6):
+                    msgs.append(f"2x3 grid, atom {bad_atom} badly prepared, perm {perm6} (inverse {inv6}): final occupations with "
+                                f"reordering {[round(float(x), 5) for x in a]} vs without {[round(float(x), 5) for x in b]}: the "
+                                f"bad atom must stay at 0 and the others must agree")
+                    break
+        else:
+            print(f"  note: grid permutation {perm6} is an involution; second scenario skipped")
+    except Exception as e:
+        msgs.append(f"emu-mps run with a badly prepared atom and qubit ordering: {type(e).__name__}: "
+                    f"{' '.join(str(e).split())[:160]} ({K.where_exc(e)})")
+    # dark-site padding, leakage level, emu-sv
+    msgs += K.padding_units(int(os.environ.get("VERIF_SEED", "0")))
+    m = K.fill_results_unit()
     if m:
         msgs.append(m)
-    _, r_on = N.run(True, bad)
-    _, r_off = N.run(False, bad)
-    a, b = torch.as_tensor(r_on.occupation[-1]), torch.as_tensor(r_off.occupation[-1])
-    if a[0].abs() > 1e-12 or not torch.allclose(a, b, atol=1e-6):
-        msgs.append(f"atom 0 badly prepared, perm {perm}: final occupations (atom order {tuple(r_on.atom_order)}) with "
-                    f"reordering {[round(float(x), 5) for x in a]} vs without {[round(float(x), 5) for x in b]}: bad atom 0 "
-                    "must stay at 0 and the others must agree")
-    # second scenario: a permutation that is not an involution (perm != inv_perm), one bad atom at a time
-    G = N.grid_matrix()
-    impl6, _, _ = N.make_impl(True, bad_atoms=[False] * 6, matrix=G)
-    perm6 = impl6.qubit_permutation.tolist()
-    inv6 = [perm6.index(k) for k in range(6)]
-    if perm6 != inv6:
-        for bad_atom in (1, 4):
-            bad6 = [k == bad_atom for k in range(6)]
-            _, r_on = N.run(True, bad6, matrix=G)
-            _, r_off = N.run(False, bad6, matrix=G)
-            a, b = torch.as_tensor(r_on.occupation[-1]), torch.as_tensor(r_off.occupation[-1])
-            if a[bad_atom].abs() > 1e-12 or not torch.allclose(a, b, atol=1e-6):
-                msgs.append(f"2x3 grid, atom {bad_atom} badly prepared, perm {perm6} (inverse {inv6}): final occupations with "
-                            f"reordering {[round(float(x), 5) for x in a]} vs without {[round(float(x), 5) for x in b]}: the "
-                            f"bad atom must stay at 0 and the others must agree")
-                break
-    else:
-        print(f"  note: grid permutation {perm6} is an involution; second scenario skipped")
+    msgs += K.leakage()
+    msgs += K.sv_without_jumps()
+    K.known_f24()
+    K.known_f25()
     if msgs:
         print("REPRODUCED: " + msgs[0])
         for m in msgs[1:]:
             print("  also: " + m)
         return 1
     print(f"NOT-REPRODUCED: perm {perm}: per-site filter, reduced drives / matrix of the good atoms, occupations as "
-          "without reordering")
+          "without reordering; padding helpers at physical dimension 2 and 3; 3-level runs with bad atoms agree with "
+          "the runs without them (ordering off / on); emu-sv without jump operators keeps bad atoms in |g>")
     return 0
 
 
